@@ -115,6 +115,19 @@ Proof.
     apply scalars_app; [exact Ha|]. exact (Hr e (or_introl eq_refl) He loc l1 ts1 E).
   - injection H as _ <-. exact Ha.
 Qed.
+
+Lemma star_stop_scalars e ne : flat_rec [e] -> flat_class e = true ->
+  forall n loc acc l ts, scalars acc -> peg_star_stop rec n e ne loc acc = POk l ts -> scalars ts.
+Proof.
+  intros Hr He. induction n as [|n IH]; intros loc acc l ts Ha H; cbn [peg_star_stop] in H; [discriminate H|].
+  destruct (rec ne loc) as [nl nts| | |]; try discriminate H.
+  - destruct (rec e loc) as [l1 ts1| | |] eqn:E; try discriminate H.
+    + destruct (Nat.eqb l1 loc); [discriminate H|].
+      apply (IH l1 (acc ++ ts1) l ts); [|exact H].
+      apply scalars_app; [exact Ha|]. exact (Hr e (or_introl eq_refl) He loc l1 ts1 E).
+    + injection H as _ <-. exact Ha.
+  - injection H as _ <-. exact Ha.
+Qed.
 End Level.
 
 (* the reading of a flat content yields scalar tokens only *)
@@ -148,10 +161,16 @@ Proof.
     + (* EFollowedBy *) destruct (peg G s f c loc); try discriminate H. injection H as _ <-. reflexivity.
     + (* ELookahead *) destruct (peg G s f c loc); try discriminate H. injection H as _ <-. reflexivity.
   - (* repetition *)
-    destruct ne as [ne|]; [discriminate He|].
-    destruct (peg G s f b loc) as [l1 ts1| | |] eqn:E; try discriminate H.
-    + refine (star_scalars _ b (Hrec [b]) He _ l1 ts1 l ts _ H). exact (IH b He loc l1 ts1 E).
-    + destruct z; [|discriminate H]. injection H as _ <-. reflexivity.
+    destruct ne as [ne|].
+    + (* with stop_on *)
+      destruct (peg G s f ne loc) as [nl nts| | |]; try discriminate H.
+      * destruct (peg G s f b loc) as [l1 ts1| | |] eqn:E; try discriminate H.
+        -- refine (star_stop_scalars _ b ne (Hrec [b]) He _ l1 ts1 l ts _ H). exact (IH b He loc l1 ts1 E).
+        -- destruct z; [|discriminate H]. injection H as _ <-. reflexivity.
+      * destruct z; [|discriminate H]. injection H as _ <-. reflexivity.
+    + destruct (peg G s f b loc) as [l1 ts1| | |] eqn:E; try discriminate H.
+      * refine (star_scalars _ b (Hrec [b]) He _ l1 ts1 l ts _ H). exact (IH b He loc l1 ts1 E).
+      * destruct z; [|discriminate H]. injection H as _ <-. reflexivity.
 Qed.
 End Flat.
 
